@@ -231,11 +231,27 @@ def request_table(ctx):
     selft = ('param', 'self')
     name = ('param', rq.params()[1])
     table = ('attr', selft, 'busNames')
-    paths = [p for p in Interp(prog, exc_edges=False).run(rq)
+    paths = [p for p in Interp(prog, exc_edges=False,
+                               mark_assumes=True).run(rq)
              if p.outcome == 'return']
     if len(paths) < 4:
         raise AnalysisError('dbus_RequestName: only %d return paths'
                             % len(paths))
+
+    def _says_empty(v, pol):
+        """does assuming v == pol say the queue of the name is empty?"""
+        if _is_queue(v, table, name):
+            return not pol
+        qs = [x for x in walk_term(v) if kind(x) == 'call' and
+              x[1] == 'len' and len(x[3]) == 1 and
+              _is_queue(x[3][0], table, name)]
+        for lq in qs[:1]:
+            t0 = truth(subst_fold(v, {lq: C(0)}))
+            t1 = truth(subst_fold(v, {lq: C(1)}))
+            t2 = truth(subst_fold(v, {lq: C(2)}))
+            if t0 is not None and t1 is not None and t1 == t2 and t0 != t1:
+                return t0 == pol
+        return False
     rows = []
     for p in paths:
         atoms = {}
@@ -251,9 +267,49 @@ def request_table(ctx):
             atoms[a[0]] = (a[1] == pol)
         # queue effect
         effect = 'absent'
+        gone = False        # the name's entry was deleted from the table
+        ci = None           # the caller's index in the queue, once inserted
+        infeasible = False
         for ev in iter_events(p.trace):
+            if ev[0] == 'assume':
+                if ci is not None and _says_empty(ev[1], ev[2]):
+                    # the caller is in the queue at this point: the branch
+                    # that found it empty is never taken
+                    infeasible = True
+                continue
+            # where the caller stands: insert(k, caller), then the entries
+            # in front of it leaving (del queue[0], queue.pop(0),
+            # queue.remove(queue[0]))
+            if ev[0] == 'call' and kind(ev[1][2]) == 'attr' and \
+                    _is_queue(ev[1][2][1], table, name):
+                m_, a_ = ev[1][2][2], ev[1][3]
+                if m_ == 'insert' and a_ and is_const(a_[0]) and \
+                        isinstance(a_[0][1], int) and a_[0][1] >= 0:
+                    ci = a_[0][1]
+                elif m_ == 'append':
+                    ci = 1 << 20
+                elif ci is not None and ci > 0 and (
+                        (m_ == 'pop' and a_ == (C(0),)) or
+                        (m_ == 'remove' and len(a_) == 1 and
+                         kind(a_[0]) == 'sub' and a_[0][2] == C(0) and
+                         _is_queue(a_[0][1], table, name))):
+                    ci -= 1
+                    if ci == 0:
+                        effect = 'head'
+            if ev[0] == 'delsub' and _is_queue(ev[1], table, name) and \
+                    ev[2] == C(0) and ci is not None and ci > 0:
+                ci -= 1
+                if ci == 0:
+                    effect = 'head'
+            if ev[0] == 'delsub' and ev[1] == table and ev[2] == name:
+                gone = True
+            if ev[0] == 'call' and kind(ev[1][2]) == 'attr' and \
+                    ev[1][2][1] == table and ev[1][2][2] == 'pop' and \
+                    ev[1][3] and ev[1][3][0] == name:
+                gone = True
             if ev[0] == 'setsub' and ev[1] == table and ev[2] == name:
                 effect = 'head'
+                gone = False
             if ev[0] == 'setsub' and _is_queue(ev[1], table, name) and \
                     ev[2] == C(0):
                 effect = 'head'         # queue[0] = caller
@@ -271,6 +327,13 @@ def request_table(ctx):
                 effect = 'queued'
         if atoms.get('IS_OWNER'):
             effect = 'head'
+        if gone and effect in ('head', 'queued'):
+            # the caller was put into a list that is no longer the table's
+            # entry for the name: nobody owns the name as far as routing and
+            # GetNameOwner can see
+            effect = 'in a queue that was removed from the table'
+        if infeasible:
+            continue
         rows.append((atoms, p.value[1] if is_const(p.value) else None,
                      effect, unknown, p))
     n_bad = 0
